@@ -90,7 +90,8 @@ class Executor:
         if m.get('addr') == 'sim' and m.get('idseam', True):
             # direct uses of id() on propka objects: simulated allocator that
             # recycles the addresses of dead objects (legal, rare natively)
-            self.idseam = seams.IdSeam(m['layout'][1] * 31 + 7)
+            lseed = m['layout'][1] if isinstance(m['layout'][1], int) else len(m['layout'][1])
+            self.idseam = seams.IdSeam(lseed * 31 + 7)
             self.idseam.install()
         self.files = None
         if m.get('filelayer', True):
